@@ -15,3 +15,8 @@ Definition g_norm_reduce_nonstatio : tx := gen_norm_reduce_nonstatio.
 Definition g_norm_statio_sliced : bool := gen_norm_statio_over_solution_slice.
 Definition g_totals : bool :=
   gen_total_ode_is_sum_of_returned_terms && gen_total_statio_is_sum_of_returned_terms && gen_total_nonstatio_is_sum_of_returned_terms.
+Definition g_facet_reduce_dict : tx := gen_facet_reduce_dict.
+Definition g_facet_reduce_global : tx := gen_facet_reduce_global.
+Definition g_facets_wiring : bool := gen_facet_none_is_skipped && gen_facets_are_summed.
+Definition g_dirichlet_statio_reduce : tx := gen_dirichlet_statio_reduce.
+Definition g_dirichlet_nonstatio_reduce : tx := gen_dirichlet_nonstatio_reduce.
